@@ -525,9 +525,17 @@ func (db *DB) search(o Object, field, operator string, value interface{}, constr
 }
 
 func (db *DB) flush(o Object) (err error) {
+	var pending Object
+	var ok bool
+
+	// what has been accepted is written, not the object held by the
+	// caller. Nothing has to be done if no write is pending
+	if pending, ok = db.asyncw.get(o); !ok {
+		return
+	}
 
 	// object stays pending if it could not be written
-	if err = db.writeObject(o); err != nil {
+	if err = db.writeObject(pending); err != nil {
 		return
 	}
 
